@@ -119,8 +119,19 @@ ClauseE(hh, pre, e, post) ==
   \o If(e.e = "Drain" /\ \E r \in 1..NReqO(post) : Unresolved(post, r), "C19:unresolved-after-drain", 0, 0)
   \o If(e.res = "Panicked", "C19:panic", e.r, 0)
 
+\* the wiring in client/builder.rs: a client built with a timeout (with_timeout / with_optional_timeout(Some) / the
+\* default) whose peer stays silent gets the timeout error at the configured virtual time (e.dt ms; e.ms = elapsed,
+\* 5 ms allowed for the granularity of the timer), never before; a peer that answers at once gets its response through
+ClauseW(hh, pre, e, post) ==
+  IF e.e = "Wiring" /\ e.ok THEN
+       If(e.stage # "answers" /\ (e.res # "Timeout" \/ e.ms > e.dt + 5), "C19:wired-timeout-late-or-missing", 0, 0)
+    \o If(e.res = "Timeout" /\ e.ms < e.dt, "C19:wired-timeout-early", 0, 0)
+    \o If(e.stage = "answers" /\ e.dt > 0 /\ e.res # "Ok", "C19:wired-inner-result-lost", 0, 0)
+  ELSE <<>>
+
 Clauses(hh, pre, e, post) ==
   ClauseA(hh, pre, e, post) \o ClauseB(hh, pre, e, post) \o ClauseC(hh, pre, e, post) \o ClauseD(hh, pre, e, post) \o ClauseE(hh, pre, e, post)
+  \o ClauseW(hh, pre, e, post)
 
 Upd(hh, pre, e, post) ==
   IF e.e = "RespReady" THEN [hh EXCEPT !.respAt = Put(@, e.r, e.ms + 1, 0)] ELSE hh
